@@ -1,6 +1,6 @@
 (** C07  Merging coolers is the exact element-wise aggregate of the inputs.
     Only statements; proofs are in Proofs/MergeProofs.v. *)
-From Cooler Require Import Model.Merge Proofs.PixelsProofs Proofs.MergeProofs.
+From Cooler Require Import Model.Merge Proofs.PixelsProofs Proofs.BinsProofs Proofs.MergeProofs.
 From Coq Require Import Sorted Permutation.
 
 (** merge_breakpoints terminates (fuel = length of the index = n_bins + 1 is never exhausted) for every
@@ -68,6 +68,14 @@ Theorem C07_order_independent : forall (n : nat) (inputs inputs' : list (mcool Z
 Proof. exact merge_order_independent. Qed.
 Print Assumptions C07_order_independent.
 
+Theorem C07_order_independent_any_agg : forall (V : Type) (agg : list V -> V) (n : nat) (inputs inputs' : list (mcool V)) (buf buf' : Z),
+  (forall vs vs', Permutation vs vs' -> agg vs = agg vs') ->
+  Permutation inputs inputs' ->
+  inputs <> [] -> (1 <= n)%nat -> Forall (ValidIn n) inputs -> 0 <= buf -> 0 <= buf' ->
+  merged_px agg inputs buf = merged_px agg inputs' buf'.
+Proof. intros V. exact (@merge_order_independent_gen V). Qed.
+Print Assumptions C07_order_independent_any_agg.
+
 (** associativity over histories: storing the merge of xs (table + its index) and merging that file with ys
     equals merging xs ++ ys at once; xs = [a;b], ys = [c] is merge [merge [a;b]; c] = merge [a;b;c] *)
 Theorem C07_merge_assoc : forall (n : nat) (xs ys : list (mcool Z)) (b1 b2 b3 : Z),
@@ -83,6 +91,85 @@ Theorem C07_merged_is_valid : forall (V : Type) (agg : list V -> V) (n : nat) (i
   Forall (ValidIn n) inputs -> ValidIn n (mk_cool n (groupby_agg agg (allpx inputs))).
 Proof. intros V. exact (@valid_merged V). Qed.
 Print Assumptions C07_merged_is_valid.
+
+(** refusal of incompatible inputs: an output exists only if every input has the storage mode of the first
+    and passed CoolerMerger's compatibility test against it ... *)
+Theorem C07_refuse_incompatible : forall inputs buf columns dtypes aggs c,
+  merge_coolers inputs buf columns dtypes aggs = Ok c ->
+  exists c0 rest, inputs = c0 :: rest /\
+    Forall (fun ci => c_symm ci = c_symm c0 /\ compatible c0 ci = true) inputs /\
+    c_bins c = c_bins c0 /\ c_names c = c_names c0 /\ c_symm c = c_symm c0.
+Proof. exact refuse_incompatible. Qed.
+Print Assumptions C07_refuse_incompatible.
+
+(** ... and that test is sound: on valid bin tables acceptance implies the same chromosome names and the
+    same bin table, also on the fixed-bin-size branch that compares only (bin size, names, lengths) -- by C20 *)
+Theorem C07_compatible_same_axes : forall c0 c blocks0 blocks,
+  c_bins c0 = concat blocks0 -> c_bins c = concat blocks ->
+  BinsProofs.ValidBlocks blocks0 -> BinsProofs.ValidBlocks blocks ->
+  compatible c0 c = true -> c_bins c = c_bins c0 /\ c_names c = c_names c0.
+Proof. exact compatible_same_axes. Qed.
+Print Assumptions C07_compatible_same_axes.
+
+Theorem C07_merged_inputs_share_axes : forall inputs buf columns dtypes aggs c,
+  merge_coolers inputs buf columns dtypes aggs = Ok c ->
+  Forall (fun ci => exists blocks, c_bins ci = concat blocks /\ BinsProofs.ValidBlocks blocks) inputs ->
+  Forall (fun ci => c_bins ci = c_bins c /\ c_names ci = c_names c /\ c_symm ci = c_symm c) inputs.
+Proof. exact merged_inputs_share_axes. Qed.
+Print Assumptions C07_merged_inputs_share_axes.
+
+(** stored value = aggregate or error (guarded form): merge_coolers either fails or stores, for every pixel,
+    the row of per-column aggregates of that pixel's values over the (column-projected) inputs, computed in
+    the machine arithmetic of the model (integer sums accumulate in int64), and every stored value lies
+    within its output dtype *)
+Theorem C07_no_silent_overflow : forall inputs buf columns dtypes aggs,
+  0 <= buf ->
+  (1 <= c_nbins (hd {| c_names := []; c_bins := []; c_symm := true; c_cols := []; c_off := []; c_px := []; c_sum := 0 |} inputs))%nat ->
+  Forall (fun ci => ValidIn (c_nbins (hd ci inputs)) (as_mcool ci)) inputs ->
+  match merge_coolers inputs buf columns dtypes aggs with
+  | Err _ => True
+  | Ok c => exists projected,
+      Forall2 (fun ci pi => map fst (mc_px pi) = map fst (c_px ci) /\ mc_off pi = c_off ci) inputs projected /\
+      c_px c = groupby_agg (agg_row (mc_ops columns aggs)) (allpx projected) /\
+      forall k row, In (k, row) (c_px c) ->
+        row = agg_row (mc_ops columns aggs) (vals (allpx projected) k) /\
+        fits_row (map snd (c_cols c)) row = true
+  end.
+Proof. exact no_silent_overflow. Qed.
+Print Assumptions C07_no_silent_overflow.
+
+(** the machine sum is the exact sum whenever the exact sum fits int64; column j of a stored row is the
+    aggregate of column j *)
+Theorem C07_sum_exact_within_int64 : forall vs, - 2 ^ 63 <= sumZ vs < 2 ^ 63 -> agg_col ASum vs = sumZ vs.
+Proof. exact agg_col_sum_exact. Qed.
+Print Assumptions C07_sum_exact_within_int64.
+Theorem C07_row_aggregate_columnwise : forall ops rows j op, nth_error ops j = Some op ->
+  nth j (agg_row ops rows) 0 = agg_col op (map (fun r => nth j r 0) rows).
+Proof. exact agg_row_nth. Qed.
+Print Assumptions C07_row_aggregate_columnwise.
+
+(** the unguarded statement "a stored sum is never different from the exact sum unless an error is raised" is
+    FALSE of the faithful model (and of the code: known finding D19): two int64 counts 2^62 *)
+Theorem C07_no_silent_overflow_refuted :
+  exists inputs c, merge_coolers inputs 10 None [] [] = Ok c /\
+    c_px c = [((0, 1), [- 2 ^ 63])] /\
+    sumZ (map (fun p => nth 0 (snd p) 0) (concat (map c_px inputs))) = 2 ^ 63.
+Proof.
+  exists [ {| c_names := [0]; c_bins := [(0,0,10); (0,10,20)]; c_symm := true; c_cols := [(0, 64)];
+              c_off := [0;1;1]; c_px := [((0,1),[2 ^ 62])]; c_sum := 2 ^ 62 |};
+           {| c_names := [0]; c_bins := [(0,0,10); (0,10,20)]; c_symm := true; c_cols := [(0, 64)];
+              c_off := [0;1;1]; c_px := [((0,1),[2 ^ 62])]; c_sum := 2 ^ 62 |} ].
+  eexists. split; [vm_compute; reflexivity|]. split; vm_compute; reflexivity.
+Qed.
+Print Assumptions C07_no_silent_overflow_refuted.
+
+(** the D10 input (two int32 counts 2^31-1) is refused by the model, as by the repaired code *)
+Example ex_C07_int32_limit_refused :
+  let a := {| c_names := [0]; c_bins := [(0,0,10); (0,10,20)]; c_symm := true; c_cols := [(0, 32)];
+              c_off := [0;1;1]; c_px := [((0,1),[2 ^ 31 - 1])]; c_sum := 2 ^ 31 - 1 |} in
+  merge_coolers [a; a] 10 None [] [] = Err EValue /\
+  observe (merge_coolers [a; a] 10 None [(0, 64)] []) = Ok (true, [(0, 64)], [0;1;1], [((0,1),[2 ^ 32 - 2])], 2 ^ 32 - 2).
+Proof. vm_compute. split; reflexivity. Qed.
 
 (** non-vacuity: two real-looking indexes (one with leading empty rows), buffer 1 *)
 Example ex_C07_breakpoints :
